@@ -56,6 +56,8 @@ def main():
                 print("patch does not apply:", r.stderr)
                 return 2
             suite = sh(f"JOBS=10 /tmp/wt-tools/run_suite.sh {wt}")
+            if suite.returncode != 0:  # the suite's own Hypothesis tests have deadlines: retry once on a loaded machine
+                suite = sh(f"JOBS=6 /tmp/wt-tools/run_suite.sh {wt}")
             d1 = sh(f"PYTHONPATH={wt}/src /venv/bin/python {demo}", cwd="/tmp")
             sh(f"git -C {wt} checkout -- .")
             d0 = sh(f"PYTHONPATH={wt}/src /venv/bin/python {demo}", cwd="/tmp")
